@@ -116,6 +116,8 @@ func main() {
 		runGeo(o, rng, thorough)
 	case "pool":
 		runPool(o, rng, thorough, *replay)
+	case "valid":
+		runValid(o, rng, thorough)
 	default:
 		fmt.Fprintln(os.Stderr, "unknown stream", stream)
 		os.Exit(2)
